@@ -189,7 +189,8 @@ MANIFEST = {
                      "event handler closure of initValidatingWebhookManager, real hook processes; HTTP status, allowed, uid, status.message, warnings, "
                      "patch, patchType, the hook/binding context that ran and the registered webhook paths are compared.",
                 note="Quick: 5 binding names (one webhook-id collision, two names legal for mutating only), one of 5 residue classes of the 225 "
-                     "configurations per seed (~3.5-4 k cases). Thorough: 7 names, all 417 configurations (~40 k cases). Colliding webhook ids, "
+                     "configurations per seed plus, for every seed, the 8 two-hook configurations with one binding per hook in every kind "
+                     "combination (VV, MM, VM, MV) (~4.7-5.3 k cases). Thorough: 7 names, all 417 configurations (~40 k cases). Colliding webhook ids, "
                      "empty path segments, sloppy-but-parseable response files and concurrent requests are outside the domain (module docstring).",
                 technique="TLA+ reference machine enumerated and checked by TLC; case replay through the real HTTP handler, operator and hook processes",
                 design="5/C14"),
